@@ -144,6 +144,10 @@ func C10Operands() []geom.Geometry {
 		"GEOMETRYCOLLECTION(POINT(1 1),LINESTRING(0 2,2 2))", "GEOMETRYCOLLECTION(POLYGON((0 0,2 0,2 2,0 2,0 0)),POLYGON((1 1,3 1,3 3,1 3,1 1)))",
 		"GEOMETRYCOLLECTION(POLYGON((0 0,5 0,5 5,0 5,0 0),(1 1,1 4,4 4,4 1,1 1)),LINESTRING(0 0,5 5),POINT(2 2))", "GEOMETRYCOLLECTION(GEOMETRYCOLLECTION(MULTIPOINT(1 1,0 2)),POLYGON EMPTY)",
 		"GEOMETRYCOLLECTION EMPTY", "LINESTRING(0 0,2 0,2 1,0 0)", "MULTILINESTRING((0 0,2 0,2 1,0 0),(5 5,6 6))",
+		// three edge interiors through (4,-2) whose pairwise float crossing points differ in the last place:
+		// which of them becomes the node must not depend on map order
+		"MULTILINESTRING((-10 12,15 -13),(4 10,4 -6))", "LINESTRING(9 7,-1 -11)",
+		"MULTIPOLYGON(((0 0,1 0,1 1,0 1,0 0)),((2 0,3 0,3 1,2 1,2 0)),((4 0,5 0,5 1,4 1,4 0)),((0 2,1 2,1 3,0 3,0 2)),((2 2,3 2,3 3,2 3,2 2)),((4 2,5 2,5 3,4 3,4 2)))",
 	}
 	for _, w := range wkts {
 		g, err := geom.UnmarshalWKT(w)
